@@ -604,7 +604,7 @@ func runEntCase(c EntCase) *vkit.Outcome {
 
 var propEnt = vkit.NewProp([]string{P}, "c20entrance", genEntCase, runEntCase)
 
-func TestC20Entrance(t *testing.T) { propEnt.Check(t) }
+func TestC20Entrance(t *testing.T) { propEnt.CrashFile = true; propEnt.Check(t) }
 
 // ------------------------------------------------------------------ (c) antispam through the pipeline
 
@@ -848,4 +848,4 @@ func runPACase(c PACase) *vkit.Outcome {
 
 var propPA = vkit.NewProp([]string{P}, "c20pipeantispam", genPACase, runPACase)
 
-func TestC20PipelineAntispam(t *testing.T) { propPA.Check(t) }
+func TestC20PipelineAntispam(t *testing.T) { propPA.CrashFile = true; propPA.Check(t) }
